@@ -33,6 +33,12 @@ class CtlProperty:
         return res.violations
 
 
+def process_comms_text_key() -> str:
+    """The key under which a control message carries its text (exported by the library)."""
+    from plumpy import process_comms
+    return getattr(process_comms, 'MESSAGE_TEXT_KEY', 'message')
+
+
 def is_closed(proc: Any) -> bool:
     """A closed process refuses further use with ClosedError: it cannot be stepped any more (and, in the implementation as
     it stands, takes no more cleanups).  Either refusal shows that it is closed - the statements do not say which method."""
@@ -44,8 +50,16 @@ def is_closed(proc: Any) -> bool:
             return True
         except Exception:  # noqa: BLE001 - e.g. the assertion that a terminated process cannot be stepped
             continue
-        if hasattr(result, 'close'):
-            result.close()  # the coroutine of a step that was not refused
+        if hasattr(result, 'send'):
+            # the coroutine of a step that was not refused at call time: it may be refused when it starts to run
+            try:
+                result.send(None)
+            except plumpy.ClosedError:
+                return True
+            except BaseException:  # noqa: BLE001 - StopIteration, the assertion that a terminated process cannot be stepped
+                pass
+            finally:
+                result.close()
     return False
 
 
